@@ -59,7 +59,9 @@ ASSUMPTIONS = ["counts >= 0, initial weights x0 >= 0 (NaN allowed), tol > 0, max
                "trans-only needs >= 2 chromosomes (with one chromosome the chromosome weight is 1/0 and the run never "
                "reports convergence)",
                "the bin-level filters of a trans-only run are evaluated, as in the code, on cis+trans data",
-               "a bin that is not excluded but has no data left may carry NaN or a positive weight (outside the property)"]
+               "a bin that is not excluded but has no data left may carry NaN or a positive weight (outside the property)",
+               "the MAD-max cut is decided exactly on fourth powers of rationals (lemmas madcut_real, log_geomean, "
+               "abs_log_sub); that median/sort commute with the monotone log is not formalised"]
 CHUNK = 4
 sys.set_int_max_str_digits(0)   # exact rationals of the model have thousands of digits
 SLACK = 1e-9
@@ -674,8 +676,8 @@ def shrink(name, case):
     for key, val in (("blacklist", []), ("x0", None), ("min_nnz", 0), ("min_count", 0), ("mad_max", 0), ("rescale", True)):
         if o[key] != val:
             yield {**case, "opts": {**o, key: val}}
-    # drop pixels
-    for k in range(len(px)):
+    # drop pixels (never the last one: an empty cooler is a different experiment)
+    for k in range(len(px) if len(px) > 1 else 0):
         yield {**case, "pixels": px[:k] + px[k + 1:]}
     # drop the last bin when nothing refers to it
     n, offs = case["n"], case["offsets"]
